@@ -981,9 +981,53 @@ static void run_vararg(Ctx &c) {
   VP_CHECK(c, r >= 0 && x.called, "wellformed-refused", "%s returns %d%s", M.what.c_str(), r, x.called ? "" : " without calling the handler");
 }
 
+// ------------------------------------------------------------------------------------------------ C++ template source
+// mpt::source<T>(values, len, step) (mptcore/types.h, header only): explicit value list walked from the first element with a
+// positive step, from the last one with a negative step. Index model: pos0 = step < 0 ? len - 1 : 0, element k is
+// values[pos0 + k * step] while that index is inside [0, len). The object is a C++ class; its v-table starts with
+// value / advance / reset like the C interface, so the same driver is used (no metatype: nothing to clone).
+template <typename T>
+static void run_source_as(Ctx &c, const char *tname, size_t len, int step, const std::vector<double> &raw) {
+  Session S;
+  Model M;
+  std::vector<T> data;
+  for (size_t k = 0; k < len; k++) data.push_back((T)raw[k]);
+  // exact-size heap copy: an index outside [0, len) that is dereferenced is an ASan error
+  T *heap = (T *)malloc(len ? len * sizeof(T) : 1);
+  if (len) memcpy(heap, data.data(), len * sizeof(T));
+  S.heap.push_back(heap);
+  std::vector<double> vals;
+  for (long pos = step < 0 ? (long)len - 1 : 0; pos >= 0 && pos < (long)len; pos += step) vals.push_back((double)data[pos]);
+  char buf[96];
+  snprintf(buf, sizeof buf, "mpt::source<%s>(%zu values, step %d)", tname, len, step);
+  M.what = buf;
+  M.n_lo = M.n_hi = vals.size();
+  M.at = [vals](uint64_t k) { return k < vals.size() ? Expect{true, vals[k], 0} : Expect{false, 0, 0}; };
+  c.logf("%s: denotes %zu elements", M.what.c_str(), vals.size());
+  mpt::source<T> src(heap, (long)len, step);
+  c.label("kind:cxx-source");
+  c.label(step < 0 ? "source:negative-step" : "source:positive-step");
+  if ((size_t)(step < 0 ? -step : step) > len) c.label("source:step>length");
+  drive(c, S, M, 0, static_cast<mpt::iterator *>(&src));
+}
+static void run_source(Ctx &c) {
+  size_t len = c.range(0, 8);
+  static const int kSteps[] = {1, -1, 2, -2, 3, -3, 5, -5, 9, -9, 7, -7, 4, -4, 100, -100};
+  int step = kSteps[c.pick(16)];
+  std::vector<double> raw;
+  for (size_t k = 0; k < len; k++) raw.push_back((double)(10 + 7 * k + c.range(0, 6)));  // distinct, fit every element type used
+  switch (c.pick(4)) {
+    case 0: return run_source_as<double>(c, "double", len, step, raw);
+    case 1: return run_source_as<int>(c, "int", len, step, raw);
+    case 2: return run_source_as<float>(c, "float", len, step, raw);
+    default: return run_source_as<uint16_t>(c, "uint16_t", len, step, raw);
+  }
+}
+
 static void run(Ctx &c) {
   uint8_t sel = c.u8();
   if (sel >= 248) return run_vararg(c);
+  if (sel >= 244) return run_source(c);
   if (sel < 110) return run_create(c);
   if (sel < 190) return run_direct(c);
   if (sel < 215) return run_text(c);
@@ -995,7 +1039,8 @@ static Target t = {
     "C19",
     "random: source = mpt_iterator_create(description from the grammar lin|linear / fact|factor|fac / range / value list with spacing, case and number-format variants; "
     "dubious (zero count, 2^32 count, non-finite or reversed bounds, factor <= 0), mutated (1-3 character edits) and malformed descriptions) | mpt_iterator_linear | "
-    "mpt_iterator_boundary | mpt_iterator_values | mpt_iterator_poly | mpt_iterator_profile over a drawn grid | mpt_iterator_string | mpt_meta_buffer | mpt_meta_arguments | the vararg argument iterator of mpt_process_vararg (1-5 arguments of type d/f/i/u, driven inside the handler); "
+    "mpt_iterator_boundary | mpt_iterator_values | mpt_iterator_poly | mpt_iterator_profile over a drawn grid | mpt_iterator_string | mpt_meta_buffer | mpt_meta_arguments | the vararg argument iterator of mpt_process_vararg (1-5 arguments of type d/f/i/u, driven inside the handler) | the C++ template mpt::source<T> "
+    "(T double/int/float/uint16_t, 0..8 values, step +-1..9 and +-100); "
     "counts 0,1,2,3,.. and 2^32-1, bounds incl. 1e300, denormals, inf, nan; then a drawn interleaving (<= 160 calls) of value / advance / value+advance / reset / clone / "
     "mpt_iterator_consume / documented loop over the source and up to 3 clones (text argument iterator: three reads in four are followed by a second read of the same element "
     "with another target type, fitting or not, before the advance), closed by walk-to-end, reset, second walk and two reads/advances past the end; "
